@@ -533,30 +533,9 @@ func (d *driver) run(o Op, f *FaultSpec) *StepObs {
 	}
 
 	// calls and the model-level address of the faulted one
-	counts := map[string]int{}
+	d.encodeCalls(x, log, obs)
 	for _, c := range log {
-		if c.Bg {
-			continue
-		}
-		ck, ok := x.key(c)
-		if !ok {
-			continue
-		}
-		k := ck.Term
-		if c.Faulted {
-			obs.hitCoq = fmt.Sprintf("(Some (mkFault (KCall %s) %d FailBefore))", k, counts[k])
-			obs.Hit = fmt.Sprintf("%s/%s/%s#%d", c.Party, c.Method, c.Target, counts[k])
-		}
-		counts[k]++
-		fl := int64(0)
-		if c.Faulted {
-			fl = 1
-		}
-		obs.Calls = append(obs.Calls, strconv.Itoa(len(ck.Enc)+1), strconv.FormatInt(fl, 10))
-		for _, v := range ck.Enc {
-			obs.Calls = append(obs.Calls, strconv.FormatInt(v, 10))
-		}
-		if c.Method == "VirtualizationWait" && !c.Faulted && !c.Err {
+		if !c.Bg && c.Method == "VirtualizationWait" && !c.Faulted && !c.Err {
 			obs.Waited = append(obs.Waited, x.widOf(c.Target))
 		}
 	}
@@ -600,7 +579,7 @@ func snapCoq(s *cw.Snapshot) string {
 	for _, p := range s.Pods {
 		pods = append(pods, strconv.Itoa(num(p)))
 	}
-	nodes, plugs, wls, wlnodes, conts := []string{}, []string{}, []string{}, []string{}, []string{}
+	nodes, plugs, wls, wlnodes, conts, eng := []string{}, []string{}, []string{}, []string{}, []string{}, []string{}
 	diffs := 0
 	for _, n := range s.Nodes {
 		nodes = append(nodes, fmt.Sprintf("(%d, %d, %s, %s)", num(n.Name), num(n.Pod), vh.Bool(n.Bypass), vh.Bool(n.Available)))
@@ -626,6 +605,8 @@ func snapCoq(s *cw.Snapshot) string {
 			node = num(wl.Node)
 		}
 		wls = append(wls, fmt.Sprintf("(%s, %d, %s)", c.coq(), pod, coqRes(wl.CPU, wl.Mem)))
+		// the parameters the stored record hands to the engine (the model has one value for both)
+		eng = append(eng, fmt.Sprintf("(%s, %s)", c.coq(), coqRes(wl.EngCPU, wl.EngMem)))
 		wlnodes = append(wlnodes, fmt.Sprintf("(%s, %d)", c.coq(), node))
 	}
 	for _, c := range s.Containers {
@@ -636,8 +617,8 @@ func snapCoq(s *cw.Snapshot) string {
 		st := map[string]int{cw.Created: 0, cw.Running: 1, cw.Stopped: 2}[c.State]
 		conts = append(conts, fmt.Sprintf("(%s, %s)", id.coq(), vh.ZI(st)))
 	}
-	return fmt.Sprintf("(mkSnap %s %s %s %s %s %s %d %d %d)", vh.List(pods), vh.List(nodes), vh.List(plugs), vh.List(wls), vh.List(wlnodes), vh.List(conts),
-		len(s.Processing), len(s.OpenWAL), diffs)
+	return fmt.Sprintf("(mkSnap %s %s %s %s %s %s %d %d %d %s)", vh.List(pods), vh.List(nodes), vh.List(plugs), vh.List(wls), vh.List(wlnodes), vh.List(conts),
+		len(s.Processing), len(s.OpenWAL), diffs, vh.List(eng))
 }
 
 func (o Op) coq() string {
@@ -729,7 +710,7 @@ var faultMethods = map[string][]string{
 		"VirtualizationInspect", "Commit", "DeleteProcessing"},
 	"remove":     {"GetWorkloads", "GetNode", "CreateLock", "Lock", "SetNodeResourceUsage", "SetNodeResourceUsage", "RemoveWorkload", "VirtualizationRemove", "VirtualizationRemove"},
 	"dissociate": {"GetWorkloads", "GetNode", "Lock", "SetNodeResourceUsage", "SetNodeResourceUsage", "RemoveWorkload", "RemoveWorkload"},
-	"realloc":    {"GetWorkload", "GetNode", "Lock", "GetWorkloads", "Realloc", "UpdateWorkload", "UpdateWorkload", "VirtualizationUpdateResource", "VirtualizationUpdateResource"},
+	"realloc":    {"GetWorkload", "GetNode", "Lock", "GetWorkloads", "Realloc", "Plugin.SetNodeResourceUsage", "UpdateWorkload", "UpdateWorkload", "VirtualizationUpdateResource", "VirtualizationUpdateResource"},
 	"replace": {"GetWorkloads", "CreateLock", "GetNode", "ImageLocalDigests", "VirtualizationStop", "VirtualizationCreate", "Log", "AddWorkload", "VirtualizationStart",
 		"VirtualizationInspect", "RemoveWorkload", "RemoveWorkload", "VirtualizationRemove", "VirtualizationRemove", "AddWorkload"},
 	"lambda": {"Log", "Log", "Log", "GetWorkload", "VirtualizationLogs", "VirtualizationAttach", "VirtualizationWait", "GetWorkloads", "SetNodeResourceUsage", "RemoveWorkload",
@@ -865,7 +846,7 @@ func (d *driver) setupSmall(h *history) {
 }
 
 func newDriver(t *testing.T, rng *rand.Rand, strict bool) *driver {
-	w := cw.New(t, cw.Options{StrictRemove: strict})
+	w := cw.New(t, cw.Options{StrictRemove: strict, PluginFaults: true})
 	return &driver{t: t, w: w, rng: rng, live: map[string]string{}, boundOps: map[int]bool{}}
 }
 
